@@ -489,7 +489,17 @@ def has_recurrent_lazy(v) -> bool:
             return bool(v[2])
         return any(has_recurrent_lazy(x) for x in v[1:])
     if isinstance(v, list):
-        return any(has_recurrent_lazy(x) for x in v)
+        # record keys whose str() forms collide share one 'properties' entry (recorded finding C10:required-duplicates):
+        # the later key's schema is the one that stays, an earlier Lazy under the same label is not in the output
+        def label(k):
+            if isinstance(k, tuple) and k and k[0] == "VStr":
+                return "".join(map(chr, k[1]))
+            if isinstance(k, tuple) and k and k[0] in ("VInt", "VBool", "VNone"):
+                return str(k[1]) if k[0] != "VNone" else "None"
+            return None
+        labels = [label(x.a) if isinstance(x, P) else None for x in v]
+        live = [x for i, x in enumerate(v) if labels[i] is None or labels[i] not in labels[i + 1:]]
+        return any(has_recurrent_lazy(x) for x in live)
     if isinstance(v, P):
         return has_recurrent_lazy(v.a) or has_recurrent_lazy(v.b)
     if isinstance(v, Some):
